@@ -61,6 +61,28 @@ REFERENCE = {
     "vacuum_impedance": (376.730313668, 2e-9, D(M=1, L=2, T=-3, I=-2)),
 }
 
+# CODATA 2018 / IAU values of constants the catalogue does NOT define today, under the names a maintainer is likely to give them: a constant added later
+# under one of these names is decided like the others; one added under an unknown name makes the check refuse (exit 2) instead of passing it unseen
+EXTRA_REFERENCE = {
+    "von_klitzing_constant": (25812.80745, 1e-9, D(M=1, L=2, T=-3, I=-2)),
+    "josephson_constant": (483597.8484e9, 1e-9, D(M=-1, L=-2, T=2, I=1)),
+    "magnetic_flux_quantum": (2.067833848e-15, 1e-9, D(M=1, L=2, T=-2, I=-1)),
+    "conductance_quantum": (7.748091729e-5, 1e-9, D(M=-1, L=-2, T=3, I=2)),
+    "proton_rest_mass": (1.67262192369e-27, 1e-9, D(M=1)), "proton_mass": (1.67262192369e-27, 1e-9, D(M=1)),
+    "neutron_rest_mass": (1.67492749804e-27, 1e-9, D(M=1)), "neutron_mass": (1.67492749804e-27, 1e-9, D(M=1)),
+    "atomic_mass_constant": (1.66053906660e-27, 1e-9, D(M=1)), "atomic_mass_unit": (1.66053906660e-27, 1e-9, D(M=1)),
+    "bohr_magneton": (9.2740100783e-24, 1e-9, D(I=1, L=2)), "nuclear_magneton": (5.0507837461e-27, 1e-9, D(I=1, L=2)),
+    "compton_wavelength": (2.42631023867e-12, 1e-9, D(L=1)), "classical_electron_radius": (2.8179403262e-15, 1e-9, D(L=1)),
+    "thomson_cross_section": (6.6524587321e-29, 1e-9, D(L=2)),
+    "rydberg_constant": (10973731.568160, 1e-9, D(L=-1)), "fine_structure_constant": (7.2973525693e-3, 1e-9, D()),
+    "hartree_energy": (4.3597447222071e-18, 1e-9, D(M=1, L=2, T=-2)),
+    "first_radiation_constant": (3.741771852e-16, 1e-9, D(M=1, L=4, T=-3)), "second_radiation_constant": (1.438776877e-2, 1e-9, D(L=1, K=1)),
+    "coulomb_constant": (8.9875517923e9, 2e-9, D(M=1, L=3, T=-4, I=-2)),
+    "astronomical_unit": (1.495978707e11, 1e-9, D(L=1)), "light_year": (9.4607304725808e15, 1e-9, D(L=1)), "parsec": (3.0856775814913673e16, 1e-9, D(L=1)),
+    "solar_radius": (6.957e8, 1e-3, D(L=1)), "earth_radius": (6.371e6, 2e-3, D(L=1)),
+    "standard_atmosphere": (101325.0, 1e-9, D(M=1, L=-1, T=-2)), "standard_conditions_pressure": (1e5, 2e-2, D(M=1, L=-1, T=-2)),
+}
+
 MODULE = "symplyphysics.quantities"
 
 
@@ -91,11 +113,12 @@ def check(run: Run) -> None:
         elif v.kind == "unknown":
             raise AnalysisError(f"C20: constant {name} not understood: {v.why}")
     run.floor("R2", len(consts), 20, "constants folded")
+    unknown: list = []
     for name, (val, dim, stmt) in sorted(consts.items()):
-        if name not in REFERENCE:
-            run.skip("R2", f"{mod.rel}:{stmt.lineno} {name}", "no reference value in the checker's table (new constant)")
+        if name not in REFERENCE and name not in EXTRA_REFERENCE:
+            unknown.append((name, stmt))
             continue
-        ref, tol, rdim = REFERENCE[name]
+        ref, tol, rdim = REFERENCE[name] if name in REFERENCE else EXTRA_REFERENCE[name]
         run.ob("R1", name)
         if dim != rdim:
             run.violate("R1", f"{MODULE}:{name}:dimension", mod, stmt, f"{name} has dimension {dim}, expected {rdim}", got=str(dim), expected=str(rdim))
@@ -183,3 +206,7 @@ def check(run: Run) -> None:
                             f"(a restored / copied constant) the constant's entry in the unit system is overwritten")
     from .c03 import _i3_idgen
     _i3_idgen(run)
+    if unknown:
+        # decided last, so that every finding of the rules above is reported first (a finding outlives a refusal)
+        raise AnalysisError("C20: the catalogue defines constant(s) for which this check has no reference value: "
+                            + ", ".join(f"{nm} ({mod.rel}:{st.lineno})" for nm, st in unknown) + " - their values are not decided, no verdict on the property")
